@@ -190,6 +190,87 @@ def discharge_unwrap(F, fn, A, pm, node, inst):
     return None, "unwrap of an unrecognised fallible operation"
 
 
+def sym_prefix_rule(F, fn):
+    """function-level rule for a text generator (arbitrary_str and refactorings of it), on its path summaries:
+    on every path the operations on `u` are, in this order, usize::arbitrary(u), u.peek_bytes(n), [u.bytes(m)] with
+    n = min(<that usize>, CAP) for CAP a const generic parameter; F = from_utf8(<the peeked bytes>);
+    m = n on a path where F is Ok, m = valid_up_to(<F's error>) on a path where F is Err;
+    from_utf8_unchecked is applied only to the bytes returned by that u.bytes(m) (the prefix from_utf8 accepted);
+    a text converted into String<CAP> is F's Ok value or that unchecked prefix (at most n <= CAP bytes).
+    Returns (cap name, reason) when it holds, (None, why) otherwise."""
+    from . import sym as S
+    names = [n for p in fn["params"] for n, _ in H.pat_bindings(p)]
+    if "u" not in names:
+        return None, "no parameter u"
+    U = ("param", "u")
+    sy = S.Sym(F, fn, is_effect=lambda callee, args, node, st: bool(args) and args[0] == U)
+    try:
+        paths = sy.run()
+    except S.TooManyPaths:
+        return None, "too many paths"
+    cap = None
+    for p in paths:
+        effs = list(p.effects)
+        if not effs:
+            continue
+        if not (effs[0].tcallee == ARB and (effs[0].node.get("targs") or [""])[0] == "usize"):
+            return None, "the first use of u is not usize::arbitrary(u)"
+        a0 = effs[0]
+        if len(effs) == 1:
+            continue
+        pk = effs[1]
+        if pk.callee != PEEK or len(effs) > 3:
+            return None, "u is used by %s between the length draw and the peek / more than once afterwards" % [S.short_fn(e.callee) for e in effs[1:]]
+        n = pk.args[1]
+        if not (n[0] == "call" and n[1].endswith("::min") and "Ord" in n[1] and len(n[2]) == 2 and n[2][0] == sy.proj(a0.term, S.OK, 0) and n[2][1][0] in ("path", "const")):
+            return None, "the peeked length %s is not min(<drawn usize>, CAP)" % S.show(n)[:60]
+        c = n[2][1][1].split("::")[-1]
+        if cap is not None and cap != c:
+            return None, "two different capacities"
+        cap = c
+        peeked = sy.proj(pk.term, S.SOME, 0)
+        # from_utf8 over the peeked bytes
+        fterms = {x for a in p.atoms for x in S.subterms(a[1]) if x[0] == "call" and x[1] == "core::str::converts::from_utf8"}
+        if p.result is not None:
+            fterms |= {x for x in S.subterms(p.result) if x[0] == "call" and x[1] == "core::str::converts::from_utf8"}
+        for ft in fterms:
+            if ft[2] != (peeked,):
+                return None, "from_utf8 is applied to %s, not to the peeked bytes" % S.show(ft[2][0])[:60]
+        Ft = next(iter(fterms)) if len(fterms) == 1 else None
+        allowed_texts = set()
+        if Ft is not None and sy.lookup(p, Ft) == S.OK:
+            allowed_texts.add(sy.proj(Ft, S.OK, 0))
+        if len(effs) == 3:
+            by = effs[2]
+            if by.callee != BYTES:
+                return None, "after the peek u is used by %s" % S.short_fn(by.callee)
+            m = by.args[1]
+            fk = sy.lookup(p, Ft) if Ft is not None else None
+            ok = (fk == S.OK and m == n) or (fk == S.ERR and m == ("call", "core::str::error::Utf8Error::valid_up_to", (sy.proj(Ft, S.ERR, 0),), m[3] if len(m) > 3 else None))
+            if not ok:
+                return None, "u.bytes(%s) does not take exactly the well-formed prefix (from_utf8 is %s on this path)" % (S.show(m)[:60], S.short(fk) if fk else "not consulted")
+            prefix = sy.proj(by.term, S.OK, 0)
+            allowed_unchecked = {prefix}
+        else:
+            allowed_unchecked = set()
+        # every from_utf8_unchecked / conversion into String<CAP> on this path
+        terms = [x for a in p.atoms for x in S.subterms(a[1])] + ([x for x in S.subterms(p.result)] if p.result is not None else [])
+        for x in terms:
+            if x[0] == "call" and x[1] == "core::str::converts::from_utf8_unchecked":
+                if x[2][0] not in allowed_unchecked:
+                    return None, "from_utf8_unchecked is applied to %s, not to the prefix from_utf8 accepted" % S.show(x[2][0])[:60]
+                allowed_texts.add(x)
+        for x in terms:
+            if x[0] == "call" and (x[1].endswith("::try_into") or x[1].endswith("::try_from") or "From<&" in x[1]) and len(x[2]) == 1:
+                src = x[2][0]
+                if src[0] == "call" and src[1] == "core::str::converts::from_utf8_unchecked" or src in allowed_texts or (src[0] == "proj" and src[1][0] == "call" and src[1][1] == "core::str::converts::from_utf8"):
+                    if src not in allowed_texts:
+                        return None, "a text that is not bounded by the capacity is converted into a String: %s" % S.show(src)[:60]
+    if cap is None:
+        return None, "no path peeks at u"
+    return cap, "every path draws n = min(_, %s), peeks n bytes, and keeps exactly the prefix from_utf8 accepts (<= n <= %s bytes)" % (cap, cap)
+
+
 def discharge_enum_select(fn):
     """derive(Arbitrary) variant selection: every `match (u64::from(<u32>) * N) >> 32` has arms 0..N-1 + `_ => unreachable!()`"""
     found = 0
@@ -237,6 +318,7 @@ def run(ctx):
         helpers = set()
         n_ob = 0
         caches = {}
+        sym_cache = {}
         for r in roots:
             R = Reach(F, r["inst"])
             for inst in R.local:
@@ -288,6 +370,21 @@ def run(ctx):
                         rule, detail = utf8_prefix(fn, A, nodes[0])
                 elif inst["def"] == "arbitrary::arbitrary_byte_array" and (kind.startswith("cast:") or kind in ("rawderef", "assert:misaligned", "assert:null_deref")):
                     rule, detail = transparent_cast(F, fn, A, ev, kind)
+                if rule is None and (kind == "call:" + UNWRAP or kind == "call:core::str::converts::from_utf8_unchecked" or (kind.startswith("dep-api:") and "heapless::string::String<N> as core::convert::From<&'a str>" in kind)):
+                    # other spellings of the same generator: decided on the path summaries of the whole function
+                    if fn["id"] not in sym_cache:
+                        sym_cache[fn["id"]] = sym_prefix_rule(F, fn)
+                    cap_, why_ = sym_cache[fn["id"]]
+                    if cap_ is not None:
+                        # the String capacity of this instance must be the clamp
+                        tgt_ok = True
+                        if kind != "call:core::str::converts::from_utf8_unchecked":
+                            outty = fn.get("output") or ""
+                            tgt_ok = ("String<%s>" % cap_) in outty
+                        if tgt_ok:
+                            rule, detail = "prefix-paths", why_
+                    elif detail is not None:
+                        detail = "%s; on the path summaries: %s" % (detail, why_)
                 if rule is None and detail is None:
                     from . import oblig_rules as ORg
                     rule, detail = ORg.discharge(F, inst, ev, kind)
